@@ -8,14 +8,22 @@
     closes normally was filled exactly; from this the specification's reading is rebuilt by induction on the type).
     (mechanism) what each of the three size errors means when it is raised, and that a sized region closes normally
     only when exactly filled (operation level, all states).
-    NOT YET PROVED: the converse direction for the Command / Response / stream roots (commandSize, responseSize,
-    authSize, parameterSize) and "no earlier point was decidable"; decided by the oracle (accepted => the
-    specification parses the input with exact sizes; arithmetic of every reported error recomputed from the emitted
-    events) and the model correspondence on fault-enumerated inputs.
+    The same for the Command root and for the Response root (Proofs/Comp4-5.v): accepted if and only if the
+    specification reads the whole input as one message - commandSize / responseSize equal to the length of the whole
+    message, authSize to the length of the session area, parameterSize to the length of the parameter area, and every
+    TPM2B size inside exact.  For a response the caller's encryption flag must be consistent with the message
+    (set only if the response has a session area: the decoder checks the flag against the sessions only when there
+    are any, so a flagged response without sessions is decoded with an opaque first parameter and accepted although
+    no reading of the specification describes it).
+    NOT PROVED: the converse direction for the stream root (a stream is accepted message by message with the flag
+    taken from the preceding command, so the same consistency condition would have to hold at every response) and
+    "no earlier point was decidable"; decided by the oracle (accepted => the specification parses the input with
+    exact sizes; arithmetic of every reported error recomputed from the emitted events) and the model
+    correspondence on fault-enumerated inputs.
     Statement file: theorem statements, [exact], Print Assumptions only. *)
 From Coq Require Import ZArith List String Bool.
 From TV Require Import Layout.Types gen.Tables Base.Bytes Model.Monad Model.Constraints Model.Message Model.Pump Spec.Message
-  Proofs.Account Proofs.OpLemmas Proofs.Safe1 Proofs.Comp2 Proofs.Comp3.
+  Proofs.Account Proofs.OpLemmas Proofs.Sim10 Proofs.Safe1 Proofs.Safe3 Proofs.Comp2 Proofs.Comp3 Proofs.Comp4 Proofs.Comp5.
 Import ListNotations.
 Open Scope Z_scope.
 
@@ -73,3 +81,32 @@ Theorem C03_tables_lists_progress :
   forallb (fun kt => lp_ty (snd kt)) (cmd_handles Tables.T ++ cmd_params Tables.T ++ rsp_handles Tables.T ++ rsp_params Tables.T) = true.
 Proof. vm_compute. reflexivity. Qed.
 Print Assumptions C03_tables_lists_progress.
+
+(** a command: accepted exactly when the specification reads the whole input as one command with valid leaves -
+    commandSize is then the length of the message and authSize the length of the session area *)
+Theorem C03_commands_accept_iff_well_formed :
+  forall T bs evs, msg_safe T = true -> msg_lp T = true -> msg_tables_ok T = true -> Forall isbyte bs ->
+    (decode T true RCommand bs = (evs, OAccepted) <-> spec_events T RCommand bs = Some evs).
+Proof. exact command_accept_iff_specified. Qed.
+Print Assumptions C03_commands_accept_iff_well_formed.
+
+(** a response to command [cc]: the same, with responseSize and parameterSize; the caller's encryption flag may be
+    set only for a response that has a session area *)
+Theorem C03_responses_accept_iff_well_formed :
+  forall T cc enc bs evs, msg_safe T = true -> msg_lp T = true -> msg_tables_ok T = true -> Forall isbyte bs ->
+    enc_flag_consistent T root_path enc bs ->
+    (decode T true (RResponse (Some cc) enc) bs = (evs, OAccepted) <-> spec_events T (RResponse (Some cc) enc) bs = Some evs).
+Proof. exact response_accept_iff_specified. Qed.
+Print Assumptions C03_responses_accept_iff_well_formed.
+
+(** the premises hold of the regenerated tables *)
+Theorem C03_tables_message_checks :
+  msg_safe Tables.T && msg_lp Tables.T && msg_tables_ok Tables.T = true.
+Proof. vm_compute. reflexivity. Qed.
+Print Assumptions C03_tables_message_checks.
+
+(** non-vacuity: a flagged response without a session area is the case the consistency premise excludes, and it is
+    excluded only there - with the flag clear the premise holds of every input *)
+Theorem C03_flag_clear_is_consistent : forall T bs, enc_flag_consistent T root_path false bs.
+Proof. intros T bs H. discriminate H. Qed.
+Print Assumptions C03_flag_clear_is_consistent.
